@@ -297,3 +297,40 @@ fn c05_prefix_verbose() {
     let m = finish_message::<2>(p, Some(e), kani::any());
     check_prefixes(&m);
 }
+
+// ---- C05: truncated extended / storage headers (leaf contracts ext_header_post / sto_header_post)
+
+/// every proper prefix of an extended header is Incomplete with a hint <= shortfall
+#[kani::proof]
+#[kani::stub(alloc::fmt::format, fmt_stub)]
+#[kani::unwind(14)]
+fn c05_ext_header_truncated() {
+    let buf: [u8; 10] = kani::any();
+    let n: usize = kani::any();
+    kani::assume(n < 10);
+    match dlt_extended_header(&buf[..n]) {
+        Err(nom::Err::Incomplete(nom::Needed::Size(k))) => { assert!(k.get() >= 1 && k.get() <= 10 - n); }
+        Err(nom::Err::Incomplete(nom::Needed::Unknown)) => {}
+        _ => { assert!(false); }
+    }
+}
+
+/// pattern at 0 but fewer than 16 bytes: Incomplete with a hint <= shortfall (or unknown)
+#[kani::proof]
+#[kani::stub(alloc::fmt::format, fmt_stub)]
+#[kani::stub(crate::parse::forward_to_next_storage_header, fwd_stub)]
+#[kani::unwind(18)]
+fn c05_sto_header_truncated() {
+    let mut buf: [u8; 16] = kani::any();
+    buf[0] = b'D';
+    buf[1] = b'L';
+    buf[2] = b'T';
+    buf[3] = 1;
+    let n: usize = kani::any();
+    kani::assume(n < 16);
+    match dlt_storage_header(&buf[..n]) {
+        Err(nom::Err::Incomplete(nom::Needed::Size(k))) => { assert!(n >= 4 && k.get() >= 1 && k.get() <= 16 - n); }
+        Err(nom::Err::Incomplete(nom::Needed::Unknown)) => {}
+        _ => { assert!(false); }
+    }
+}
